@@ -562,16 +562,16 @@ func tlcValidate(env hres.Env, cov map[string]any) {
 	close(ch)
 	wg.Wait()
 	cov["tlc_validation"] = map[string]any{
-		"programs_enumerated":       total,
+		"programs_enumerated":         total,
 		"without_pluscal_counterpart": noCounterpart,
 		"not_pluscal_missing_label":   needsLabel,
-		"candidates":                len(cands),
-		"validated_sample":          len(jobs),
-		"verdicts":                  results,
-		"states_compared":           statesCompared,
-		"mismatches":                mismatches,
-		"samples":                   samples,
-		"note":                      "a mismatch here means the reference interpreter (the oracle) disagrees with PlusCal/TLC: that is a defect of the check, reported in coverage, never as a violation of the property",
+		"candidates":                  len(cands),
+		"validated_sample":            len(jobs),
+		"verdicts":                    results,
+		"states_compared":             statesCompared,
+		"mismatches":                  mismatches,
+		"samples":                     samples,
+		"note":                        "a mismatch here means the reference interpreter (the oracle) disagrees with PlusCal/TLC: that is a defect of the check, reported in coverage, never as a violation of the property",
 	}
 }
 
